@@ -96,6 +96,7 @@ pub struct World {
 
 /// Begin a case: reset simulator, shims, tracker epoch.
 pub fn case_begin() -> u64 {
+    track::flush_delayed();
     sim::sim().reset();
     crate::shims::reset();
     track::take_events();
